@@ -66,6 +66,8 @@ Allowed(e, pre) ==
   {e.res[i] : i \in {j \in DOMAIN e.res : pre[e.res[j]].k = "N"}}
     \cup (IF e.a.inplace = 1 THEN {e.r} ELSE {})
 
+IsMatching(e) == e.op \in {"format_matching", "unformat_matching"}
+
 Common(e, pre, post) ==
      Cl("C09.no_timeout", TRUE, e.out # "timeout")
   \o Cl("C09.outcome", e.out # "ok",
@@ -75,8 +77,8 @@ Common(e, pre, post) ==
   \o Cl("C09.clean_fail", e.out # "ok", e.out # "ok" => e.upd = << >>)
   \o Cl("C09.consistent", e.upd # << >>, \A i \in DOMAIN e.upd : e.upd[i][2].b = 0)
   \o Cl("C08.frame", e.upd # << >>, \A i \in DOMAIN e.upd : e.upd[i][1] \in Allowed(e, pre))
-  \o Cl("C08.inplace_returns_self", e.a.inplace = 1 /\ Len(e.res) = 1,
-        (e.out = "ok" /\ e.a.inplace = 1 /\ Len(e.res) = 1) => e.same = 1)
+  \o Cl("C08.inplace_returns_self", e.a.inplace = 1 /\ Len(e.res) = 1 /\ ~IsMatching(e),
+        (e.out = "ok" /\ e.a.inplace = 1 /\ Len(e.res) = 1 /\ ~IsMatching(e)) => e.same = 1)
   \o Cl("C08.result_not_aliased", e.a.inplace = 0 /\ Len(e.res) >= 1,
         (e.out = "ok" /\ e.a.inplace = 0) =>
            \A i \in DOMAIN e.res : pre[e.res[i]].k = "N" \/ post[e.res[i]].k \in {"A", "P"})
@@ -360,6 +362,81 @@ SimplifyC(e, pre, post) ==
      \o KindC(e, pre, post, v.k)
 
 ---------------------------------------------------------------------------
+\* C17: settings queries
+RECURSIVE JoinTexts(_, _)
+JoinTexts(ids, i) == IF i > Len(ids) THEN << >>
+                     ELSE TextTable[ids[i]] \o (IF i < Len(ids) THEN <<SEMI>> ELSE << >>) \o JoinTexts(ids, i + 1)
+
+SettingsAtC(e, pre, post) ==
+  LET v == pre[e.r] n == Len(v.t) i == e.a.i IN
+     Cl("C17.at_defined", TRUE, e.out = "ok")
+  \o IF e.out # "ok" THEN None ELSE
+        Cl("C17.outside_empty", i < 0 \/ i >= n, (i < 0 \/ i >= n) => e.o.lst = << >>)
+     \o Cl("C17.inside_is_reported", i >= 0 /\ i < n /\ v.s[i+1] # << >>, (i >= 0 /\ i < n) => e.o.lst = v.s[i+1])
+     \o Cl("C17.settings_at_is_join", e.o.lst # << >>, e.o.str = JoinTexts(Tids(e.o.lst), 1))
+
+FindSettingsC(e, pre, post) ==
+  LET v == pre[e.r] n == Len(v.t)
+      lo == NormLo(e.a.start, n) hi == NormHi(e.a.end, n)
+      S == e.a.S
+      Has(p) == p >= 0 /\ p < n /\ \A k \in DOMAIN S : \E j \in DOMAIN v.s[p+1] : v.s[p+1][j][2] = S[k]
+      fwd == e.a.reverse = 0
+  IN Cl("C17.find_defined", TRUE, e.out = "ok" /\ e.o.shape = 1)
+  \o IF e.out # "ok" \/ e.o.shape # 1 THEN None ELSE
+     LET fs == e.o.fs fe == e.o.fe IN
+        Cl("C17.find_bad_range", hi < lo, hi < lo => (fs = << >> /\ fe = << >>))
+     \o Cl("C17.find_empty_settings", S = << >> /\ hi >= lo, (S = << >> /\ hi >= lo) => (fs = <<lo>> /\ fe = <<hi>>))
+     \o Cl("C17.find_none", S # << >> /\ hi >= lo /\ ~\E p \in lo..hi : Has(p),
+           (S # << >> /\ hi >= lo /\ ~\E p \in lo..hi : Has(p)) => (fs = << >> /\ fe = << >>))
+     \o Cl("C17.find_some", S # << >> /\ \E p \in lo..(hi - 1) : Has(p),
+           (S # << >> /\ \E p \in lo..(hi - 1) : Has(p)) => fs # << >>)
+     \o Cl("C17.find_start_has_all", S # << >> /\ fs # << >>,
+           (S # << >> /\ hi >= lo /\ fs # << >>) => (fs[1] >= lo /\ fs[1] <= hi /\ Has(fs[1])))
+     \o Cl("C17.find_first", fwd /\ S # << >> /\ \E p \in lo..(hi - 1) : Has(p),
+           (fwd /\ S # << >> /\ hi >= lo /\ \E p \in lo..(hi - 1) : Has(p)) =>
+              (fs # << >> /\ Has(fs[1]) /\ \A p \in lo..(fs[1] - 1) : ~Has(p)))
+     \o Cl("C17.find_run", S # << >> /\ fs # << >>,
+           (S # << >> /\ hi >= lo /\ fs # << >>) =>
+              \A p \in fs[1]..((IF fe = << >> THEN hi ELSE fe[1]) - 1) : Has(p))
+     \o Cl("C17.find_end", S # << >> /\ fe # << >>,
+           (S # << >> /\ hi >= lo /\ fe # << >>) =>
+              (fs # << >> /\ fe[1] > fs[1] /\ fe[1] <= hi /\ (fe[1] < n => ~Has(fe[1]))))
+     \o Cl("C17.find_end_none_means_never_removed", S # << >> /\ fs # << >> /\ fe = << >>,
+           (S # << >> /\ hi >= lo /\ fs # << >> /\ fe = << >>) => \A p \in fs[1]..(hi - 1) : Has(p))
+
+---------------------------------------------------------------------------
+\* C16: format_matching / unformat_matching = the explicit loop of apply/remove over re matches.
+\* e.a.spans are the first `count` matches of Python's re on the base text (logged oracle);
+\* the last result register holds the twin on which the harness performed the explicit loop.
+MatchingC(e, pre, post) ==
+  LET v == pre[e.r] n == Len(v.t)
+      spans == e.a.spans
+      InSpan(i) == \E k \in DOMAIN spans : spans[k][1] < i /\ i <= spans[k][2]
+  IN Cl("C16.defined", e.a.pat_ok = 1, e.a.pat_ok = 1 => e.out = "ok")
+  \o IF ~HasResult(e) \/ e.a.pat_ok # 1 THEN None ELSE
+     LET w == ResultOf(e, post)
+         twin == post[e.res[Len(e.res)]]
+         styled == HasStyle(v) \/ e.a.S # << >>
+     IN Cl("C16.text", TRUE, w.t = v.t)
+     \o Cl("C16.equals_explicit_loop", spans # << >> /\ styled, EquivVal(w, twin))
+     \o Cl("C16.renders_like_explicit_loop", spans # << >> /\ styled, w.q = twin.q)
+     \o Cl("C16.outside_matches", HasStyle(v) /\ \E i \in 1..n : ~InSpan(i),
+           Len(w.s) = n /\ \A i \in 1..n : ~InSpan(i) => Equiv(w.s[i], v.s[i]))
+     \o Cl("C16.no_match_no_change", spans = << >> /\ HasStyle(v), spans = << >> => EquivVal(w, v))
+
+---------------------------------------------------------------------------
+\* C13: the AnsiStr result (a) of an operation equals the AnsiString result (b) of the same operation
+TwinC(e, pre, post) ==
+     Cl("C13.twin_count", TRUE, Len(e.a.a) = Len(e.a.b))
+  \o IF Len(e.a.a) # Len(e.a.b) THEN None ELSE
+        Cl("C13.twin_kind", TRUE, \A k \in DOMAIN e.a.a : pre[e.a.a[k]].k = "A")
+     \o Cl("C13.twin_equiv", \E k \in DOMAIN e.a.b : HasStyle(pre[e.a.b[k]]),
+           \A k \in DOMAIN e.a.a : EquivVal(pre[e.a.a[k]], pre[e.a.b[k]]))
+     \o Cl("C13.twin_render", \E k \in DOMAIN e.a.b : HasStyle(pre[e.a.b[k]]),
+           \A k \in DOMAIN e.a.a : pre[e.a.a[k]].q = pre[e.a.b[k]].q)
+     \o Cl("C13.twin_payload", TRUE, \A k \in DOMAIN e.a.a : pre[e.a.a[k]].p = pre[e.a.a[k]].q)
+
+---------------------------------------------------------------------------
 EqC(e, pre, post) ==
   IF e.tag = "probe_copy_eq"
   THEN Cl("C08.copy_compares_equal", TRUE, e.out = "ok" /\ e.o.eq = 1)
@@ -382,6 +459,10 @@ OpClauses(e, pre, post) ==
     [] e.op = "render" -> RenderC(e, pre, post)
     [] e.op = "reparse" -> ReparseC(e, pre, post)
     [] e.op = "simplify" -> SimplifyC(e, pre, post)
+    [] e.op = "ansi_settings_at" -> SettingsAtC(e, pre, post)
+    [] e.op = "find_settings" -> FindSettingsC(e, pre, post)
+    [] e.op \in {"format_matching", "unformat_matching"} -> MatchingC(e, pre, post)
+    [] e.op = "twincheck" -> TwinC(e, pre, post)
     [] e.op = "pgs"    -> PgsC(e)
     [] e.op = "s2d"    -> S2dC(e)
     [] e.op = "pcs"    -> PcsC(e)
